@@ -1,4 +1,6 @@
 //! orchestration: generate cases, run the implementation, ask the model driver, shrink failures, write the summary
+use crate::compile::{self, Program};
+use crate::cli::{self, CliCase, InputKind, OutKind};
 use crate::cases2::{self, ListCase, Op, OpsCase, PairCase, TableCase};
 use crate::dom::{Doc, Item, Node};
 use crate::driver::{self, Verdict};
@@ -85,6 +87,9 @@ impl Summary {
             prop_only: false,
             seen: HashSet::new(),
         }
+    }
+    pub fn seen_insert(&mut self, h: u64) -> bool {
+        self.seen.insert(h)
     }
     pub fn to_json(&self, wall_s: f64) -> Value {
         json!({
@@ -507,6 +512,9 @@ pub fn rule_for(prop: &str) -> String {
         "C15" => "all pairs of duplicate-free tagged lists over a small alphabet (exhaustive), random pairs up to length 40 beyond; distinct = hash of the case line; non-trivial = the second list has >= 2 items absent from the first",
         "C16" => "all operation sequences up to a length bound over a fixed single-operation alphabet (exhaustive), random sequences up to length 60 at depth <= 3 beyond; non-trivial = the sequence adds a present name, or removes then adds, or operates on a name after set_child_optional",
         "C06" => "generated histories of 2-5 documents, each paired with 3 permutations, a duplication, an interleaving with element-less inputs and an insertion of a faulty document; non-trivial = the schema has >= 2 positions",
+        "C02" => "generated data-oriented histories; each rendering (quick-xml preset, unchanged, and a copy with deny_unknown_fields on every struct) is compiled by the real rustc with serde_derive and run: quick_xml::de::from_str on every source document, the value is fed to a string-collecting Serializer; non-trivial = program with >= 2 structs, >= 1 Option and >= 1 Vec field",
+        "C13" => "as C02 with the serde-xml-rs preset and serde_xml_rs::from_str (namespace-free, repeated children adjacent, attribute names distinct from child names); non-trivial = program with >= 2 structs, >= 1 Option and >= 1 Vec field",
+        "C12" => "scenarios = input (generated valid document, structured fault, byte mutation, not UTF-8, missing, directory) x --parser x --derive x --sort x output (stdout, new file, existing file, missing directory, a directory), run with the real binary in a fresh directory; non-trivial = not (valid input, all defaults, stdout)",
         "C11" => "generated histories paired with a rewritten variant (new values, text<->CDATA, inserted/removed comments, PIs, declaration, DOCTYPE, <x/> <-> <x></x>, expand_empty_elements, buffer capacity); non-trivial = the rewrite touched something",
         _ => "generated cases",
     }
@@ -685,6 +693,208 @@ pub fn check_c06(sum: &mut Summary) {
         }
     }
     run_cases(sum, cases, 3);
+}
+
+pub fn check_c12(sum: &mut Summary) {
+    let thorough = sum.tier == "thorough";
+    if let Err(e) = cli::build_repo_binary() {
+        sum.failures.push(Failure { kind: "BAD".into(), what: format!("the binary does not build from /repo: {}", e), case: json!({"kind": "build"}) });
+        return;
+    }
+    let mut cases: Vec<CliCase> = load_corpus_values("C12").iter().filter_map(CliCase::from_json).collect();
+    sum.extra.insert("corpus_cases".into(), json!(cases.len()));
+    let mut rng = Rng::new(sum.seed ^ 0xC12);
+    let n = if thorough { 20_000 } else { 400 };
+    for i in 0..n {
+        let mut r = rng.fork();
+        let mut cfg = GenCfg::quick();
+        cfg.max_depth = 3;
+        let h = gen::gen_history(&mut r, &gen::THEMES, &cfg);
+        let xml = h.docs[0].to_xml();
+        let (input, label) = match r.below(10) {
+            0 => (InputKind::Missing, "missing"),
+            1 => (InputKind::Directory, "directory"),
+            2 => (InputKind::Bytes({
+                let mut b = xml.clone().into_bytes();
+                let pos = r.below(b.len() + 1);
+                b.insert(pos, 0xff);
+                b
+            }), "not-utf8"),
+            3 => (InputKind::Bytes(gen::structured_fault(&mut r, &xml)), "structured-fault"),
+            4 => (InputKind::Bytes(gen::mutate(&mut r, xml.as_bytes())), "mutated"),
+            _ => (InputKind::Bytes(xml.clone().into_bytes()), "valid"),
+        };
+        let parser = match r.below(3) { 0 => None, 1 => Some("quick-xml-de".to_string()), _ => Some("serde-xml-rs".to_string()) };
+        let derive = match r.below(4) { 0 => None, 1 => Some(String::new()), 2 => Some("Debug, Clone".to_string()), _ => Some("Serialize, Deserialize, Отладка(x)".to_string()) };
+        let sort = match r.below(3) { 0 => None, 1 => Some("unsorted".to_string()), _ => Some("name".to_string()) };
+        let output = match r.below(6) { 0 | 1 => OutKind::Stdout, 2 => OutKind::NewFile, 3 => OutKind::Existing("previous content\n".into()), 4 => OutKind::MissingDir, _ => OutKind::IsDirectory };
+        if i == 0 {
+            cases.push(CliCase { input: InputKind::Bytes(xml.clone().into_bytes()), label: "valid".into(), parser: None, derive: None, sort: None, output: OutKind::Stdout });
+        }
+        cases.push(CliCase { input, label: label.into(), parser, derive, sort, output });
+    }
+    run_cases(sum, cases, 3);
+    let _ = std::fs::remove_dir_all("/verif/.build/cli");
+}
+
+pub fn gen_programs(rng: &mut Rng, n: usize, sxr: bool, thorough: bool) -> Vec<Program> {
+    let opt = if sxr { OptRec::sxr() } else { OptRec::quick() };
+    let mut out = Vec::new();
+    let mut tries = 0;
+    while out.len() < n && tries < n * 4 {
+        tries += 1;
+        let mut r = rng.fork();
+        let mut cfg = GenCfg::quick();
+        cfg.data_oriented = true;
+        cfg.max_depth = if thorough { 4 } else { 3 };
+        cfg.max_fanout = 4;
+        cfg.max_docs = 3;
+        if sxr {
+            cfg.adjacent_repeats = true;
+            cfg.disjoint_attrs_kids = true;
+        }
+        let themes: Vec<Theme> = if sxr {
+            vec![Theme::Plain, Theme::Keywords, Theme::CaseVariants, Theme::Separators, Theme::Concat, Theme::Prelude, Theme::SuffixTraps, Theme::NonAscii, Theme::Recurring]
+        } else {
+            gen::THEMES.to_vec()
+        };
+        cfg.split_text = false;
+        let mut h = gen::gen_history(&mut r, &themes, &cfg);
+        for d in h.docs.iter_mut() {
+            let mut counter = 0;
+            gen::uniquify(&mut d.root, &mut counter);
+        }
+        if let Some(p) = compile::make_program(h.docs, &format!("{:?}", h.theme), &opt) {
+            out.push(p);
+        }
+    }
+    out
+}
+
+/// K1: serde-xml-rs 0.6.0 binds text to `$value`; the preset emits `$text`, so the text of a struct-typed element is dropped
+fn is_k1(sxr: bool, r: &compile::DocResult) -> bool {
+    sxr && k1_listed() && r.ok && !r.missing.is_empty() && r.missing.iter().all(|m| m.struct_typed_text)
+}
+
+/// a known finding only suppresses what /verif/known_findings.json lists (committed; never written at run time)
+fn k1_listed() -> bool {
+    static LISTED: std::sync::OnceLock<bool> = std::sync::OnceLock::new();
+    *LISTED.get_or_init(|| {
+        std::fs::read_to_string("/verif/known_findings.json")
+            .ok()
+            .and_then(|s| serde_json::from_str::<Value>(&s).ok())
+            .and_then(|v| v.as_array().cloned())
+            .map_or(false, |a| a.iter().any(|k| k["property"] == "C13" && k["status"] == "known" && k["signature"] == "sxr-text-of-struct-typed-element-dropped"))
+    })
+}
+
+pub fn eval_programs(sum: &mut Summary, programs: &[Program], sxr: bool, nbins: usize, tag: &str) {
+    let prop = sum.property.clone();
+    let results = match compile::run_batch(&format!("{}-{}", prop, tag), programs, sxr, nbins) {
+        Ok(r) => r,
+        Err(e) => {
+            sum.failures.push(Failure { kind: "BAD".into(), what: format!("compile batch failed: {}", e), case: json!({"kind": "batch"}) });
+            return;
+        }
+    };
+    let mut lines = Vec::new();
+    let mut k1_hits = 0u64;
+    for (i, (p, r)) in programs.iter().zip(results.iter()).enumerate() {
+        let mut per_doc = Vec::new();
+        for j in 0..p.docs.len() {
+            let plain = r.docs.get(j).cloned().unwrap_or_default();
+            let deny = if sxr { plain.clone() } else { r.docs_deny.get(j).cloned().unwrap_or_default() };
+            let ok = plain.ok && deny.ok;
+            let mut cap = plain.missing.is_empty() && deny.missing.is_empty();
+            if !cap && is_k1(sxr, &plain) {
+                cap = true;
+                k1_hits += 1;
+            }
+            per_doc.push((ok, cap));
+        }
+        lines.push(compile::d_line(&format!("c{}", i), &prop, p, r.compiled, &per_doc));
+    }
+    if k1_hits > 0 {
+        let e = sum.extra.entry("known_hits_K1".to_string()).or_insert(json!(0));
+        *e = json!(e.as_u64().unwrap_or(0) + k1_hits);
+    }
+    let verdicts = match driver::run(&lines) {
+        Ok(v) => v,
+        Err(e) => {
+            sum.failures.push(Failure { kind: "BAD".into(), what: e, case: json!({"kind": "driver"}) });
+            return;
+        }
+    };
+    for (i, (p, r)) in programs.iter().zip(results.iter()).enumerate() {
+        let v = verdicts.get(&format!("c{}", i)).cloned().unwrap_or(Verdict::Bad("no verdict".into()));
+        sum.evaluations += 1;
+        *sum.verdicts.entry(v.kind().to_string()).or_insert(0) += 1;
+        if let Verdict::Gen(g) = &v {
+            *sum.gen_reasons.entry(g.clone()).or_insert(0) += 1;
+        }
+        let h = hash_str(&format!("{}{:?}", p.text, p.docs.iter().map(|d| d.to_xml()).collect::<Vec<_>>()));
+        let structs = p.text.matches("pub struct ").count();
+        let nontrivial = structs >= 2 && p.text.contains("Option<") && p.text.contains("Vec<");
+        if sum.seen_insert(h) {
+            sum.distinct += 1;
+            if nontrivial && !matches!(v, Verdict::Gen(_)) {
+                sum.distinct_nontrivial += 1;
+                if sum.samples.len() < 2 {
+                    sum.samples.push(compile::program_json(p, r));
+                }
+            }
+        }
+        *sum.tags.entry(format!("theme:{}", p.theme)).or_insert(0) += 1;
+        for (k, val) in [("structs", structs as u64), ("documents", p.docs.len() as u64), ("source_bytes", p.text.len() as u64)] {
+            *sum.metrics_sum.entry(k.to_string()).or_insert(0) += val;
+            let e = sum.metrics_max.entry(k.to_string()).or_insert(0);
+            *e = (*e).max(val);
+        }
+        if v.is_failure() && !(sum.prop_only && v.kind() != "PROP") && sum.failures.iter().filter(|f| f.kind == v.kind()).count() < 3 {
+            sum.failures.push(Failure { kind: v.kind().to_string(), what: v.text(), case: compile::program_json(p, r) });
+        }
+    }
+}
+
+pub fn check_compile(sum: &mut Summary, sxr: bool) {
+    let thorough = sum.tier == "thorough";
+    let prop = sum.property.clone();
+    let mut rng = Rng::new(sum.seed ^ if sxr { 0xC13 } else { 0xC02 });
+    // corpus: documents as XML text
+    let mut corpus: Vec<Program> = Vec::new();
+    for v in load_corpus_values(&prop) {
+        if v["kind"] == "program" {
+            let docs: Option<Vec<Doc>> = v["documents"].as_array().map(|a| a.iter().filter_map(|d| crate::xmlread::read_doc(d.as_str().unwrap_or("").as_bytes())).collect());
+            if let Some(docs) = docs {
+                if let Some(p) = compile::make_program(docs, "corpus", &if sxr { OptRec::sxr() } else { OptRec::quick() }) {
+                    corpus.push(p);
+                }
+            }
+        }
+    }
+    sum.extra.insert("corpus_cases".into(), json!(corpus.len()));
+    let total = if thorough { 3000 } else { 150 };
+    let chunk = if thorough { 400 } else { 150 };
+    let mut done = 0;
+    let mut first = true;
+    while done < total {
+        if let Some(d) = sum.deadline {
+            if Instant::now() > d {
+                break;
+            }
+        }
+        let n = chunk.min(total - done);
+        let mut programs = if first { corpus.clone() } else { vec![] };
+        first = false;
+        programs.extend(gen_programs(&mut rng, n, sxr, thorough));
+        eval_programs(sum, &programs, sxr, threads(), &format!("{}", done));
+        done += n;
+    }
+    if let Some(k) = sum.extra.get("known_hits_K1").and_then(|v| v.as_u64()) {
+        if k > 0 {
+            sum.extra.insert("known_hits".into(), json!(["sxr-text-of-struct-typed-element-dropped"]));
+        }
+    }
 }
 
 // ---- C11 rewrites -----------------------------------------------------------------------------
@@ -869,6 +1079,9 @@ pub fn main(args: &[String]) -> i32 {
                 "C16" => check_c16(&mut sum),
                 "C06" => check_c06(&mut sum),
                 "C11" => check_c11(&mut sum),
+                "C12" => check_c12(&mut sum),
+                "C02" => check_compile(&mut sum, false),
+                "C13" => check_compile(&mut sum, true),
                 _ => {
                     eprintln!("unknown property {}", prop);
                     return 2;
@@ -927,6 +1140,39 @@ pub fn replay(prop: &str, cv: &Value) -> i32 {
             Some(c) => replay_case(prop, &c),
             None => 2,
         },
+        "cli" => match CliCase::from_json(cv) {
+            Some(c) => {
+                if let Err(e) = cli::build_repo_binary() {
+                    println!("BAD cannot build the binary: {}", e);
+                    return 1;
+                }
+                replay_case(prop, &c)
+            }
+            None => 2,
+        },
+        "program" => {
+            let sxr = prop == "C13";
+            let docs: Vec<Doc> = cv["documents"].as_array().map(|a| a.iter().filter_map(|d| crate::xmlread::read_doc(d.as_str().unwrap_or("").as_bytes())).collect()).unwrap_or_default();
+            match compile::make_program(docs, "replay", &if sxr { OptRec::sxr() } else { OptRec::quick() }) {
+                Some(p) => {
+                    let mut sum = Summary::new(prop, "quick", 0, "replay");
+                    eval_programs(&mut sum, &[p], sxr, 1, "replay");
+                    for f in &sum.failures {
+                        println!("{} {}", f.kind, f.what);
+                    }
+                    if sum.failures.is_empty() {
+                        println!("OK");
+                        0
+                    } else {
+                        1
+                    }
+                }
+                None => {
+                    println!("PROP the library rejects one of the documents");
+                    1
+                }
+            }
+        }
         "pair" => match PairCase::from_json(cv) {
             Some(c) => replay_case(prop, &c),
             None => 2,
